@@ -431,16 +431,14 @@ def rule_MP11(rep, prog):
                    "loop runs the timers again instead of leaving the kernel timer deleted", floor=1)
     fn = prog.fn("_dispatch_timers_program")
     rep.saw(fn)
-    gd = calls_named(fn, "_dispatch_timers_get_delay")
+    # the delay is the value handed to the kernel-timer arm (its 3rd argument); it comes from _dispatch_timers_get_delay or is computed in place
+    arm = calls_named(fn, "_dispatch_event_loop_timer_arm")
+    gd = arm
     dirty = calls_named(fn, "_dispatch_timers_heap_dirty") + [i for i in fn.all_insts() if i.op == "store" and "dth_dirty_bits" in prog.fields(i)]
-    zero = []
-    for i in fn.all_insts():
-        if i.op == "icmp" and i.d["pred"] in ("eq", "ne") and i.ops[1][0] == "c" and i.ops[1][1] == 0:
-            e = fn.inst(i.ops[0])
-            if e is not None and e.op == "extractvalue" and fn.inst(e.ops[0]) in gd and e.d.get("idx") == [0]:
-                zero.append(i)
-    if not gd or not zero:
-        rep.unknown(rid, "anchor vanished in _dispatch_timers_program (get_delay=%d, delay==0 tests=%d)" % (len(gd), len(zero)))
+    delays = {tuple(a_.ops[2][:2]) for a_ in arm if len(a_.ops) > 2}
+    zero = [i for i in fn.all_insts() if i.op == "icmp" and i.d["pred"] in ("eq", "ne") and i.ops[1][0] == "c" and i.ops[1][1] == 0 and tuple(i.ops[0][:2]) in delays]
+    if not arm or not zero:
+        rep.unknown(rid, "anchor vanished in _dispatch_timers_program (timer arm calls=%d, delay==0 tests=%d)" % (len(arm), len(zero)))
         return
     bad = None
     n_due = 0
